@@ -101,6 +101,80 @@ fn model_check(frame: &[u8], impl_text: String, case: String, q: &mut Vec<Pendin
     });
 }
 
+// ---- a frame as a field of a record with evolution steps: the chunk, not the whole input, bounds what it may read ----
+#[derive(Debug, Clone, PartialEq)]
+struct Zipped(Vec<u8>);
+
+impl desert::BinarySerializer for Zipped {
+    fn serialize<O: BinaryOutput>(&self, ctx: &mut desert::SerializationContext<O>) -> desert::Result<()> {
+        ctx.write_compressed(&self.0, Compression::new(6))
+    }
+}
+
+impl desert::BinaryDeserializer for Zipped {
+    fn deserialize(ctx: &mut DeserializationContext<'_>) -> desert::Result<Self> {
+        Ok(Zipped(ctx.read_compressed()?))
+    }
+}
+
+#[derive(Debug, Clone, PartialEq, desert::BinaryCodec)]
+#[evolution(FieldAdded("t", 0u8))]
+struct ZHolder {
+    z: Zipped,
+    x: u8,
+    t: u8,
+}
+
+fn frames_in_chunks(r: &mut Rng, c: &mut Collector) {
+    for round in 0..24 {
+        c.eval();
+        let n = [0usize, 1, 7, 20, 33][round % 5];
+        let content: Vec<u8> = (0..n).map(|i| if round % 2 == 0 { (i % 3) as u8 } else { r.next() as u8 }).collect();
+        let v = ZHolder { z: Zipped(content.clone()), x: 0x5a, t: 0xa5 };
+        let case = format!("frame-in-chunk content={} bytes", n);
+        let b = match guarded(|| desert::serialize_to_byte_vec(&v)) {
+            Out::Ok(b) => b,
+            other => {
+                c.fail("frame", "oracle", "frame|in-chunk-write", case, format!("encoder gave {}", other.kind()));
+                continue;
+            }
+        };
+        match guarded(|| desert::deserialize::<ZHolder>(&b)) {
+            Out::Ok(d) if d == v => c.stat("frame-in-chunk-rt"),
+            other => c.fail("frame", "oracle", "frame|in-chunk-rt", case.clone(), format!("decoding {} gave {}", hex(&b), other.kind())),
+        }
+        c.nontrivial(&case);
+        // layout: 01, zz(c0), zz(c1), chunk 0 = frame ++ x, chunk 1 = t   (both sizes are one-byte var-ints here)
+        let c0 = (b[1] / 2) as usize;
+        if b[0] != 1 || b[1] % 2 != 0 || b[2] != 2 || b.len() != 3 + c0 + 1 || c0 >= 60 {
+            c.fail("frame", "oracle", "frame|in-chunk-layout", case.clone(), format!("unexpected layout {}", hex(&b)));
+            continue;
+        }
+        // the chunk ends k bytes early (the bytes are still in the input, in the next chunk): the frame is truncated by its chunk
+        for k in 1..=c0.min(6) {
+            let mut m = b.clone();
+            m[1] = ((c0 - k) * 2) as u8;
+            m[2] = ((1 + k) * 2) as u8;
+            c.stat("frame-in-chunk-truncations");
+            match guarded(|| desert::deserialize::<ZHolder>(&m)) {
+                Out::Err(_) => {}
+                other => c.fail("frame", "oracle", "frame|in-chunk-truncated", format!("{} chunk shortened by {}: {}", case, k, hex(&m)), format!("a frame (or the field after it) cut off by its chunk gave {}", other.kind())),
+            }
+        }
+        // lengths inside the frame rewritten: an error or a value, never a panic
+        for i in 3..(3 + c0.min(4)) {
+            for d in [1u8, 2, 5, 0x20, 0x7f] {
+                let mut m = b.clone();
+                m[i] = m[i].wrapping_add(d);
+                c.stat("frame-in-chunk-damaged");
+                if let Out::Panic(msg) = guarded(|| desert::deserialize::<ZHolder>(&m)) {
+                    c.fail("frame", "oracle", "frame|in-chunk-panic", format!("{} byte {} += {}: {}", case, i, d, hex(&m)), msg);
+                }
+            }
+        }
+    }
+}
+
 pub fn run(a: &Args) -> Collector {
     let mut c = Collector::new("frame");
     let mut q: Vec<Pending> = vec![];
@@ -248,6 +322,7 @@ pub fn run(a: &Args) -> Collector {
             }
         }
     }
+    frames_in_chunks(&mut r, &mut c);
     // the six-byte frame that used to reserve 4 GiB
     {
         c.eval();
